@@ -640,9 +640,13 @@ pub fn check(m: Arc<dyn DynMonitor>, tier: Tier, seed: u64, scrut_bin: PathBuf) 
     }
     let wall = started.elapsed().as_secs_f64();
     let unlisted = new_violations.len();
+    // A few undecided cases (watchdog on a loaded machine, a violation that did not reproduce) do not make
+    // the run inconclusive as long as every coverage floor is met without them: they are counted and
+    // listed as what they are, never as held.
+    let tolerated = std::cmp::max(3, a.evaluations / 200);
     let exit = if unlisted > 0 {
         1
-    } else if !a.harness_errors.is_empty() || a.inconclusive > 0 || !floors_missed.is_empty() {
+    } else if !a.harness_errors.is_empty() || a.inconclusive > tolerated || !floors_missed.is_empty() {
         2
     } else {
         0
@@ -674,7 +678,13 @@ pub fn check(m: Arc<dyn DynMonitor>, tier: Tier, seed: u64, scrut_bin: PathBuf) 
             "inconclusive_reasons": a.inconclusive_reasons,
             "floors_missed": floors_missed,
             "harness_errors": a.harness_errors,
-            "verdict": match exit { 0 => "held on what was observed", 1 => "violated", _ => "inconclusive" },
+            "inconclusive_tolerated_up_to": tolerated,
+            "verdict": match (exit, a.inconclusive) {
+                (0, 0) => "held on what was observed".to_string(),
+                (0, n) => format!("held on what was observed; {n} case(s) undecided and not counted (floors met without them)"),
+                (1, _) => "violated".to_string(),
+                _ => "inconclusive".to_string(),
+            },
         },
         "assumptions": plan.assumptions,
         "wall_s": (wall * 100.0).round() / 100.0,
@@ -699,7 +709,7 @@ pub fn check(m: Arc<dyn DynMonitor>, tier: Tier, seed: u64, scrut_bin: PathBuf) 
         distinct,
         wall
     );
-    if exit == 2 {
+    if exit == 2 || a.inconclusive > 0 {
         for r in a.inconclusive_reasons.iter().take(10) {
             println!("  inconclusive: {r}");
         }
